@@ -9,9 +9,10 @@ def obligations(prop, tier, seed, wd, out):
     if tier == 'quick':
         only = ['while_dec', 'goto_back', 'goto_into_loop', 'call_in_loop', 'loop_bound_assigned', 'nested_loops_oneline', 'loop_detour']
     else:
-        # every hand-written shape, and of the generated family the members with data-dependent control flow (the straight-line and call-wrapped
-        # members are decided completely by the bounded runs h_ctv; simulating them as well tripled the thorough wall time without adding a claim)
-        only = [n for n, _, _ in ctv.shapes(tier, seed) if not n.startswith('gen_') or n.startswith('gen_loop') or n.startswith('gen_while')]
+        # exactly the shapes the bounded runs h_ctv leave out (data-dependent control flow): the hand-written LOOPY shapes and the loop/while members of the
+        # generated family.  The other shapes are decided completely by their bounded run; simulating them as well tripled the wall time and, for
+        # shapes with unreachable reference positions (a shadowed definition) or three nested activations, only produced vacuity / capacity reports.
+        only = [n for n, _, _ in ctv.shapes(tier, seed) if n in ctv.LOOPY or n.startswith('gen_loop') or n.startswith('gen_while')]
     jobs, meta, problems = ctv.build_jobs(prop, tier, seed, wd, entries=('h_sim', 'h_sim_base'), tags=[prop, 'C01', 'C07', 'C16'], only=only)
     for j in jobs:
         j.what = 'shape %s, %s: from an arbitrary related pair of states one reference step and exactly cost(r,pc) real VM steps lead to related states (same control flow, live variables equal, older frames untouched, stop iff line event)' % (j.name.split('.')[1], j.entry)
